@@ -1,8 +1,8 @@
 SPECIFICATION Spec
 CONSTANTS
-  Fams = {"lex", "text", "control", "while", "try", "tryloop", "apply", "loader", "ws", "errors", "values", "escfiles"}
+  Fams = {"tiny"}
   Grow = 0
-  SLen = 1
+  SLen = 0
   Fuel = 3
 VIEW View
 INVARIANT TypeOK
